@@ -152,6 +152,7 @@ pub fn gen_lzma2(t: &mut Tape, max_total: u64, strict_order: bool) -> Lzma2Built
                 0 => 1,
                 1 => t.range(1, 5),
                 7 if room >= 0x10000 && t.below(16) == 0 => 0x10000,
+                4..=6 if max_total > 100_000 && room >= 0x10000 => [0x10000u64, 0xFFFF, 0x8000][t.below(3) as usize],
                 _ => t.range(1, 200),
             }
             .min(room.max(1))
@@ -189,14 +190,32 @@ pub fn gen_lzma2(t: &mut Tape, max_total: u64, strict_order: bool) -> Lzma2Built
             };
             let ts = w.enc.trace.len();
             w.begin_lzma_chunk(reset, new_props);
+            ps.chunk_start_avail = w.enc.model.avail() as u64;
             let target = match t.below(10) {
                 0 => 1,
                 1 => t.range(1, 4),
                 9 if room > 100_000 && t.below(8) == 0 => t.range(70_000, room.min(1 << 21)),
+                5..=8 if max_total > 100_000 && room > 100_000 => {
+                    if t.below(4) == 0 {
+                        room.min(1 << 21)
+                    } else {
+                        t.range(65_000, room.min(1 << 21))
+                    }
+                }
                 _ => t.range(1, 250),
             }
             .min(room.max(1));
-            if target > 10_000 {
+            if max_total > 100_000 && room > 70_000 && t.below(8) == 0 {
+                // incompressible chunk: packed size close to the 64 KiB field limit
+                let n = t.range(58_000, 63_500);
+                let mut r = crate::prng::Xoshiro::new(t.u64());
+                for _ in 0..n {
+                    let _ = w.enc.encode(Sym::Lit(r.next() as u8));
+                    if w.enc.consumed() > 65_500 {
+                        break;
+                    }
+                }
+            } else if target > 10_000 {
                 // long-run chunk: cheap symbols so that the packed size stays small
                 let b = t.byte();
                 let _ = w.enc.encode(Sym::Lit(b));
